@@ -54,6 +54,14 @@ class Rig:
                 self.results.append({"ok": False, "code": chars(str(e.expected_codes[0])), "info": [chars(x) for x in e.info]})
             except Exception as e:  # any other exception out of the decoder is never what the specification says
                 self.results.append({"ok": False, "code": chars("EXC"), "info": [chars(type(e).__name__)]})
+                # a decoder that has given the connection up (closed it, or sees it closed) would fail again at once, for ever
+                try:
+                    dead = self.client.stream.writer.transport.is_closing() or self.client.stream.reader.at_eof()
+                except Exception:
+                    dead = True
+                if dead:
+                    return
+                await asyncio.sleep(0)
 
     def send_replies(self, replies):
         async def w():
